@@ -475,8 +475,20 @@ func (C07) Name() string { return "C07" }
 var markerRe = regexp.MustCompile(`⟦(m\d+)⟧`)
 
 func (C07) AfterCall(w *World, c *Call) {
+	if c.Err != nil && c.Panic == "" && strings.Contains(c.Err.Error(), "error routing from node") {
+		// a router handed the engine an error instead of an exit: every router of a loaded flow has
+		// valid tests and categories, and a timeout is only routed where the wait has one
+		w.Violate("C07", "router-error", "C07.router-error/"+c.Kind+"-"+c.ResumeType, "the engine call failed because a router returned an error instead of an exit: "+clip(c.Err.Error(), 600))
+		return
+	}
 	if !callOK(c) {
 		return
+	}
+	for _, e := range c.Events {
+		if txt, _ := e["text"].(string); e["type"] == "failure" && strings.Contains(txt, "error routing from node") {
+			w.Violate("C07", "router-error", "C07.router-error/failure-"+c.Kind+"-"+c.ResumeType, "a run was failed because a router returned an error instead of an exit: "+clip(txt, 600))
+			return
+		}
 	}
 	v := func(oracle, fp, msg string) { w.Violate("C07", oracle, "C07."+fp, msg) }
 	routings := w.sprintRoutings(c)
